@@ -378,6 +378,7 @@ def drive(rec, seed=0, tier="quick"):
             sg = [(1, 1, 1), (-1, 1, 1), (1, -1, 1), (1, 1, -1)][k % 4]
             off = (0.002 + 0.004 * rng.random(3)) * np.array(sg)
             cell = np.eye(3) * (11.0 + k % 3) + np.array([[0, off[0], off[1]], [off[0], 0, off[2]], [off[1], off[2], 0]])
+            rec.tag = "tetrahedron-fine|%d" % k  # own tag: the recorder keeps 3 calls per (kernel, tag)
             TetrahedronMethod(np.linalg.inv(cell), mesh=[48 + 16 * (k % 2)] * 3)
     return notes
 
